@@ -195,7 +195,7 @@ func (p *Program) localMods(sv *VC, f *ssa.Function, in ssa.Instruction, ms *Mod
 			switch b.Name() {
 			case "append", "copy":
 				cmp, _ := sv.elemComp(c.Args[0].Type().Underlying().(*types.Slice).Elem())
-				note(cmp, false)
+				note(cmp, freshSlice(c.Args[0], map[ssa.Value]bool{}))
 			case "delete":
 				has, val, _, _ := sv.mapComps(c.Args[0].Type().Underlying().(*types.Map))
 				note(has, false)
@@ -292,7 +292,7 @@ func (p *Program) addrMods(sv *VC, addr ssa.Value, valT types.Type, note func(st
 		switch t := a.X.Type().Underlying().(type) {
 		case *types.Slice:
 			et = t.Elem()
-			_, fresh = a.X.(*ssa.MakeSlice)
+			fresh = freshSlice(a.X, map[ssa.Value]bool{})
 		case *types.Pointer:
 			et = t.Elem().Underlying().(*types.Array).Elem()
 			_, fresh = a.X.(*ssa.Alloc)
@@ -316,7 +316,7 @@ func (p *Program) addrMods(sv *VC, addr ssa.Value, valT types.Type, note func(st
 }
 
 // instrMods: components an instruction may modify (used for loop havoc), in the naming of vc
-func (p *Program) instrMods(vc *VC, in ssa.Instruction) (map[string]bool, bool) {
+func (p *Program) instrMods(vc *VC, in ssa.Instruction) (*ModSet, bool) {
 	ms := newModSet()
 	p.localMods(vc, vc.fn, in, ms)
 	all := false
@@ -330,14 +330,7 @@ func (p *Program) instrMods(vc *VC, in ssa.Instruction) (map[string]bool, bool) 
 			all = true
 		}
 	}
-	out := map[string]bool{}
-	for c := range ms.Old {
-		out[c] = true
-	}
-	for c := range ms.Fresh {
-		out[c] = true
-	}
-	return out, all || ms.All
+	return ms, all || ms.All
 }
 
 // typed contracts -------------------------------------------------------------
@@ -389,6 +382,20 @@ func (p *Program) typedModSet(vc *VC, tc *Contract) *ModSet {
 		ms.All = true
 		return ms
 	}
+	if len(tc.Modifies) == 0 {
+		// "modifies nothing": may allocate anything, writes nothing that existed before
+		sv := p.scratch()
+		for c, srt := range sv.compSort {
+			if c == "$alloc" {
+				continue
+			}
+			ms.Fresh[c] = true
+			ms.Sorts[c] = srt
+			if t, ok := sv.compType[c]; ok {
+				ms.Types[c] = t
+			}
+		}
+	}
 	for _, e := range tc.Modifies {
 		switch {
 		case e.Op == "call" && e.Name == "comp" && len(e.Args) == 1 && e.Args[0].Op == "ident":
@@ -428,4 +435,65 @@ func (p *Program) typedModSet(vc *VC, tc *Contract) *ModSet {
 		}
 	}
 	return ms
+}
+
+// freshSlice: is the backing array of slice value v certainly allocated by the current function
+// activation?  (make, composite literal, append to such a slice, or a phi of such values; a nil
+// slice counts: appending to it allocates.)
+func freshSlice(v ssa.Value, seen map[ssa.Value]bool) bool {
+	if seen[v] {
+		return true // a cycle through phis adds no other source
+	}
+	seen[v] = true
+	switch x := v.(type) {
+	case *ssa.MakeSlice:
+		return true
+	case *ssa.Const:
+		return x.Value == nil
+	case *ssa.Slice:
+		if al, ok := x.X.(*ssa.Alloc); ok {
+			_ = al
+			return true
+		}
+		if _, ok := x.X.Type().Underlying().(*types.Slice); ok {
+			return freshSlice(x.X, seen)
+		}
+		return false
+	case *ssa.Phi:
+		for _, e := range x.Edges {
+			if !freshSlice(e, seen) {
+				return false
+			}
+		}
+		return true
+	case *ssa.Call:
+		if b, ok := x.Call.Value.(*ssa.Builtin); ok && b.Name() == "append" {
+			return freshSlice(x.Call.Args[0], seen)
+		}
+		return false
+	case *ssa.Convert:
+		// []rune(s), []byte(s)
+		_, fromString := x.X.Type().Underlying().(*types.Basic)
+		return fromString
+	case *ssa.ChangeType:
+		return freshSlice(x.X, seen)
+	case *ssa.UnOp:
+		// load of a local slice variable whose address is taken: every store to it must be fresh
+		if al, ok := x.X.(*ssa.Alloc); ok {
+			for _, ref := range *al.Referrers() {
+				if st, ok := ref.(*ssa.Store); ok && st.Addr == al {
+					if !freshSlice(st.Val, seen) {
+						return false
+					}
+				} else if _, isLoad := ref.(*ssa.UnOp); !isLoad {
+					if _, isDbg := ref.(*ssa.DebugRef); !isDbg {
+						return false
+					}
+				}
+			}
+			return true
+		}
+		return false
+	}
+	return false
 }
